@@ -59,20 +59,24 @@ def generate(rng, tier):
     # a device that has not identified itself as a supported EBB must never be sent anything but the version probe
     hsk = [("good", S.connect_script()), ("old", ["E", "E", ("L", "EBBv13_and_above EB Firmware Version 2.8.1")]),
            ("old-multidigit", ["E", "E", ("L", "EBBv13_and_above EB Firmware Version 2.10.12")]), ("old-late", ["E", "E", "E", "E", ("L", "EBBv13_and_above EB Firmware Version 3.0.1")]),
+           ("old-after-junk", ["E", "E", ("L", "!8 Err: Unknown command"), "E", ("L", "EBBv13_and_above EB Firmware Version 2.9.9")]),
            ("not-ebb", ["E", "E", ("L", "hello"), "E", ("L", "world")]), ("silent", ["E", "E", "E", "E", "E"]), ("open-fails", ["F"]),
            ("blank-lines", ["E", "E", ("L", ""), "E", ("L", " ")])]
     reps = 1 if tier == "quick" else 15
     for _ in range(reps):
         for n1, h1 in hsk:
             for n2, h2 in [("none", None)] + hsk:
+              # after a successful connection both continuations are always tried: connecting again while connected, and disconnecting
+              # first (the object then still remembers the earlier board: its version, its port name)
+              for disc in ([None] if (n1 != "good" or h2 is None) else [None, True]):
                 calls = [("connect", S.GOOD_PORTS, None)]; ev = list(h1)
                 again = rng.choice([1, 1, 2]) if h2 is not None else 0
                 for _ in range(again):
-                    if rng.random() < 0.25: calls.append(("disconnect",))
+                    if disc or rng.random() < 0.25: calls.append(("disconnect",))
                     calls.append(("connect", S.GOOD_PORTS, None)); ev += list(h2)
                 for _ in range(rng.randint(1, 3)):
                     t = S.random_call(rng); calls.append(t); ev += S.nominal(t, rng)
-                cases.append({"kind": "h", "calls": calls, "events": ev, "family": "history/%s/%s" % (n1, n2)})
+                cases.append({"kind": "h", "calls": calls, "events": ev, "family": "history/%s/%s%s" % (n1, n2, "/after-disconnect" if disc else "")})
     # a board refused for its firmware keeps its port open: every one of the request methods on such an object (systematic)
     for n1, h1 in hsk[1:4]:
         for m in S.ALL_REQUESTS[:: (1 if tier != "quick" else 2)] + ["reboot", "bootload"]:
